@@ -271,7 +271,9 @@ impl Spec for C14 {
                     StepOut::Panic(p) => return Err(div(format!("write|panic@{}|{role}", p.tag()), format!("write({fdn}, {n}) panicked: {}", crate::emu::first_line(&p.msg)))),
                     StepOut::Err(e) => {
                         if role == "read-end" {
-                            return Ok(None);
+                            // wrong end: the call may be refused, but no byte moves (checked by
+                            // what later reads deliver)
+                            return Ok(Some(m2));
                         }
                         return Err(div(format!("write|failed|{role}"), format!("write({fdn}, buf, {n}) failed: {}", crate::emu::first_line(&e))));
                     }
@@ -290,7 +292,7 @@ impl Spec for C14 {
                             return Err(div("write|non-pipe-not-left-to-user-hook", format!("write({fdn}, buf, {n}) on a non-pipe descriptor reached the user hook as {log:?}")));
                         }
                     }
-                    Fd::R(_) => return Ok(None), // wrong end: crash-freedom only
+                    Fd::R(_) => {} // wrong end: no crash, and no byte moves (the model stays as it is)
                 }
             }
             Op::Read { fd, n } => {
@@ -311,7 +313,7 @@ impl Spec for C14 {
                     StepOut::Panic(p) => return Err(div(format!("read|panic@{}|{role}", p.tag()), format!("read({fdn}, {n}) panicked: {}", crate::emu::first_line(&p.msg)))),
                     StepOut::Err(e) => {
                         if role == "write-end" {
-                            return Ok(None);
+                            return Ok(Some(m2));
                         }
                         return Err(div(format!("read|failed|{role}"), format!("read({fdn}, buf, {n}) failed: {}", crate::emu::first_line(&e))));
                     }
@@ -339,7 +341,7 @@ impl Spec for C14 {
                             return Err(div("read|non-pipe-not-left-to-user-hook", format!("read({fdn}, buf, {n}) on a non-pipe descriptor reached the user hook as {log:?}")));
                         }
                     }
-                    Fd::W(_) => return Ok(None),
+                    Fd::W(_) => {} // wrong end: as above
                 }
             }
         }
